@@ -25,6 +25,7 @@ type metaTrace struct {
 	A     any    `json:"a"`
 	B     any    `json:"b"`
 	Shape []int  `json:"shape"`
+	Long  int    `json:"long"` // 1: input longer than 600 bytes, x and tx are not shipped
 }
 
 type metaReplay struct {
@@ -73,6 +74,29 @@ func quoteDoc(x []byte) []byte {
 		out = append(out, l...)
 	}
 	return out
+}
+
+// firstLineThematic: the first line consists of three or more of one of - _ * and spaces.
+func firstLineThematic(tx []int) bool {
+	cnt := map[int]int{}
+	for _, b := range tx {
+		if b == '\n' || b == '\r' {
+			break
+		}
+		cnt[b]++
+	}
+	for _, c := range []int{'-', '_', '*'} {
+		if cnt[c] >= 3 && cnt[c]+cnt[' '] == func() int {
+			n := 0
+			for _, v := range cnt {
+				n += v
+			}
+			return n
+		}() {
+			return true
+		}
+	}
+	return false
 }
 
 func listIndentDoc(x []byte, marker string, n int) []byte {
@@ -158,6 +182,12 @@ func cmdMeta(args []string) *Result {
 		return ""
 	}
 	write := func(t *metaTrace, rp *metaReplay, nontrivial bool, key string) {
+		if len(t.X) > 600 {
+			if t.Rel == "list" && firstLineThematic(t.TX) {
+				return
+			}
+			t.X, t.TX, t.Long = []int{}, []int{}, 1
+		}
 		sw.write(t, rp)
 		res.Traces++
 		if nontrivial {
@@ -184,6 +214,10 @@ func cmdMeta(args []string) *Result {
 		var tx []byte
 		if rel == "quote" {
 			tx = quoteDoc(x)
+		} else if rel == "quotebare" {
+			for _, l := range splitLines(x) {
+				tx = append(append(tx, '>'), l...)
+			}
 		} else {
 			tx = listIndentDoc(x, marker, n)
 		}
@@ -200,7 +234,7 @@ func cmdMeta(args []string) *Result {
 			}
 			if len(bb) == 1 {
 				switch {
-				case rel == "quote" && bb[0].Kind() == commonmark.BlockQuoteKind:
+				case (rel == "quote" || rel == "quotebare") && bb[0].Kind() == commonmark.BlockQuoteKind:
 					t.B = htmlIDs(childBlocksAsRoots(bb[0], &bb[0].Block, false), rb, ident, true)
 				case rel == "list" && bb[0].Kind() == commonmark.ListKind:
 					t.Shape[2] = bb[0].ChildCount()
@@ -364,7 +398,7 @@ func cmdMeta(args []string) *Result {
 	switch args[1] {
 	case "c09":
 		emit = func(doc []byte) {
-			if bytes.IndexByte(doc, '\t') >= 0 || len(doc) > 600 {
+			if bytes.IndexByte(doc, '\t') >= 0 || len(doc) > 4500 {
 				return
 			}
 			if _, dup := seen[string(doc)]; dup {
@@ -373,6 +407,15 @@ func cmdMeta(args []string) *Result {
 			seen[string(doc)] = struct{}{}
 			x := append([]byte(nil), doc...)
 			doC09(x, "quote", "", 0)
+			bare := true
+			for _, l := range splitLines(x) {
+				if l[0] == ' ' {
+					bare = false
+				}
+			}
+			if bare {
+				doC09(x, "quotebare", "", 0)
+			}
 			if listPre(x) {
 				k++
 				if thorough {
@@ -410,7 +453,7 @@ func cmdMeta(args []string) *Result {
 		}
 	case "c16":
 		emit = func(doc []byte) {
-			if len(doc) > 1000 {
+			if len(doc) > 4500 {
 				return
 			}
 			if _, dup := seen[string(doc)]; dup {
